@@ -441,6 +441,7 @@ func c01(p *model.Prog, r *report.Result) {
 	r.Rule("C01.R7", "nothing that outlives Group.OnReadRtmpAvMsg keeps a reference into the publisher's message buffer: every value stored into a long-lived object (GOP caches, merge writers, remuxers, recorders) on the way is a copy (interprocedural alias propagation from the msg parameter; expected count 0)")
 	retentionRule(p, r, "C01.R7", []retRoot{{p.Method("pkg/logic", "Group", "OnReadRtmpAvMsg"), 1}}, 40)
 	c01r8(p, r)
+	c01r10(p, r)
 	c01r9(p, r)
 }
 
